@@ -61,8 +61,8 @@ def run(ctx):
     quick = ctx.tier == "quick"
     ctx.build_go()
     ctx.build_emerge()
-    ctx.extract(["unordered"])
     try:
+        ctx.extract(["unordered"])
         ctx.prove("Emerge.Props.C15", extra_targets=())
         if not quick:
             ctx.leanchecker("Emerge.Props.C15")
